@@ -69,7 +69,7 @@ Outcome execute(const Workload &w, const Plan &plan, std::vector<std::string> *t
     {
         o.status = 2;
         o.cls = "harness";
-        o.msg = "race report without a frame in /repo/include: " + ri.first;
+        o.msg = std::string("race report without a frame in /repo/include: ") + ri.first;
     }
     if (o.status == 1) { ctx.log.str("violation"); ctx.log.str(o.cls); }
     o.digest = ctx.log.h;
@@ -102,6 +102,7 @@ static int run_isolated(const Workload &w, const Plan &p, std::string *cls_out)
     if (pid == 0)
     {
         close(fds[0]);
+        fcntl(fds[1], F_SETFD, FD_CLOEXEC); // a symbolizer child must not inherit the pipe
         // keep sanitizer chatter of minimisation candidates off the terminal
         int dn = open("/dev/null", O_WRONLY);
         if (dn >= 0) { dup2(dn, 2); }
@@ -250,6 +251,7 @@ struct Args
     double max_seconds = 0;
     bool verbose = false;
     int max_violations = 3;
+    int min_budget = 600;
 };
 
 static std::vector<const Workload *> workloads_for(const std::string &prop, const std::string &universe)
@@ -362,23 +364,29 @@ static void worker_main(const Args &a, int k, int W, uint64_t start_r, volatile 
         {
             ++nviol;
             if ((int)nviol > a.max_violations) { fprintf(out, "X %llu %s\n", (unsigned long long)r, o.cls.c_str()); fflush(out); continue; }
-            // gate 1: the recorded schedule reproduces the same event log and class, twice
+            // gate 1: the recorded schedule reproduces the same event log and class, twice.  A system under
+            // test that has undefined behaviour (use of freed memory after a lost race) may fail differently
+            // on each execution: such a candidate is kept unminimised and flagged, provided it fails again.
             Plan rec = plan;
             rec.sched_recorded = true;
             rec.schedule = o.schedule;
             Outcome o1 = execute(*w, rec), o2 = execute(*w, rec);
-            if (!(o1.status == 1 && o2.status == 1 && o1.cls == o.cls && o2.cls == o.cls && o1.digest == o.digest && o2.digest == o.digest))
+            bool exact = o1.status == 1 && o2.status == 1 && o1.cls == o.cls && o2.cls == o.cls && o1.digest == o.digest && o2.digest == o.digest;
+            if (!exact)
             {
-                fprintf(out, "H %llu %llu gate1: violation %s did not reproduce identically in-process (digests %llx %llx %llx, classes %s %s)\n",
-                        (unsigned long long)r, (unsigned long long)run_seed, o.cls.c_str(), (unsigned long long)o.digest,
-                        (unsigned long long)o1.digest, (unsigned long long)o2.digest, o1.cls.c_str(), o2.cls.c_str());
                 rec.expect = o.cls;
                 std::string path = write_replay(a, *w, rec);
-                fprintf(out, "H %llu %llu unminimised plan kept at %s\n", (unsigned long long)r, (unsigned long long)run_seed, path.c_str());
+                if (o1.status == 1 || o2.status == 1)
+                    fprintf(out, "V %llu %llu %s %s %s | UNSTABLE: re-execution failed as %s / %s (undefined behaviour in the system under test?); not minimised | %s\n",
+                            (unsigned long long)r, (unsigned long long)run_seed, w->universe.c_str(), o.cls.c_str(), path.c_str(),
+                            o1.status == 1 ? o1.cls.c_str() : "ok", o2.status == 1 ? o2.cls.c_str() : "ok", json_escape(o.msg).c_str());
+                else
+                    fprintf(out, "H %llu %llu gate1: violation %s did not reproduce in-process (kept at %s)\n", (unsigned long long)r,
+                            (unsigned long long)run_seed, o.cls.c_str(), path.c_str());
                 fflush(out);
                 continue;
             }
-            Tester t{w, o.cls, 600};
+            Tester t{w, o.cls, a.min_budget};
             // the data-race detector de-duplicates nothing (suppress_equal_* = 0), so in-process works for it too
             Plan min = minimise(t, rec);
             min.expect = o.cls;
@@ -450,8 +458,12 @@ static int fresh_replay(const std::string &file, std::string &cls_out)
     {
         close(fds[0]);
         dup2(fds[1], 1);
+        close(fds[1]); // nothing else (e.g. a symbolizer child) may keep the pipe open
         int dn = open("/dev/null", O_WRONLY);
         if (dn >= 0) dup2(dn, 2);
+        // a single replay can afford symbolized race reports (classification by frame)
+        setenv("STSIM_SYMBOLIZE", "1", 1);
+        setenv("TSAN_OPTIONS", "symbolize=1:external_symbolizer_path=/usr/bin/llvm-symbolizer-14", 1);
         execl("/proc/self/exe", "stsim", "replay", file.c_str(), (char *)nullptr);
         _exit(127);
     }
@@ -595,7 +607,11 @@ static int cmd_run(const Args &a)
     {
         std::string cls;
         int code = fresh_replay(v.path, cls);
-        bool ok = v.crash ? (crash_class(a.prop, code) == v.cls || (code == 1 && cls == v.cls)) : (code == 1 && cls == v.cls);
+        // reproduced = the fresh process fails again for this property (same class normally; a different class or a
+        // crash is accepted and shown, since undefined behaviour in the system under test need not repeat exactly)
+        bool ok = (code == 1 && cls.rfind(a.prop + "/", 0) == 0) || code == 77 || code >= 100;
+        if (ok && !(code == 1 && cls == v.cls) && !(v.crash && crash_class(a.prop, code) == v.cls))
+            v.msg += " | fresh-process replay failed as " + (code == 1 ? cls : crash_class(a.prop, code));
         if (!ok)
             harness.push_back("gate3: replay of " + v.path + " in a fresh process gave exit " + std::to_string(code) + " class '" + cls + "' instead of '" + v.cls + "'");
         else
@@ -680,6 +696,7 @@ int main(int argc, char **argv)
         else if (s == "--digests") a.digests = val();
         else if (s == "--max-seconds") a.max_seconds = std::atof(val().c_str());
         else if (s == "--max-violations") a.max_violations = std::atoi(val().c_str());
+        else if (s == "--min-budget") a.min_budget = std::atoi(val().c_str());
         else if (s == "-v") a.verbose = true;
         else if (a.file.empty()) a.file = s;
     }
